@@ -197,6 +197,39 @@ func writeEvidence(s *Session, verif, prop, tier string, seed int, cfg PropConfi
 	for _, k := range trusted {
 		trustedBase = append(trustedBase, "trusted body (contract assumed, body not verified): "+k)
 	}
+	// contracts of repository functions that were applied at call sites in this run although their bodies are not
+	// (fully) checked by it: modular reasoning rests on them
+	verifiedHere := map[string]bool{}
+	for _, vc := range vcs {
+		if vc.contract != nil && !vc.contract.CallsitesOnly && !vc.lockOnly {
+			verifiedHere[vc.contract.Pkg+"::"+vc.contract.Key] = true
+		}
+	}
+	for _, k := range sortedBool(s.usedContracts) {
+		if verifiedHere[k] {
+			continue
+		}
+		var c *Contract
+		for _, cc := range s.specs.Contracts {
+			if cc.Pkg+"::"+cc.Key == k {
+				c = cc
+				break
+			}
+		}
+		if c == nil || c.Extern || c.Trusted {
+			continue
+		}
+		switch {
+		case strings.HasPrefix(c.Key, "fieldcall.") || strings.HasPrefix(c.Key, "functype."):
+			trustedBase = append(trustedBase, "callee contract applied, assumed: "+k+" (contract on a function value: whatever function is stored there is assumed to satisfy it)")
+		case c.CallsitesOnly:
+			trustedBase = append(trustedBase, "callee contract applied, assumed: "+k+" (callsites-only: its frame and its postconditions other than must- ones are not checked against its body)")
+		case len(c.Props) == 0:
+			trustedBase = append(trustedBase, "callee contract applied, assumed: "+k+" (no property tag: its body is only covered by the lock sweep of C05, lock clauses)")
+		default:
+			trustedBase = append(trustedBase, "callee contract applied, checked elsewhere: "+k+" (body verified by the check of "+strings.Join(c.Props, ", ")+")")
+		}
+	}
 	var assumptions []string
 	assumptions = append(assumptions, sortedBool(assumes)...)
 	for _, a := range axioms {
